@@ -235,6 +235,19 @@ def default_memkey(block):
     return lambda m: m
 
 
+def symbolize_mems(sim, block, kind, default_value=0):
+    """replace the plain-dict memory contents a freshly constructed simulator created by SymMem (same contents)"""
+    for mid, m in mems_of(block).items():
+        if kind == 'sim':
+            if mid in sim.memvalue and isinstance(sim.memvalue[mid], dict):
+                sim.memvalue[mid] = SymMem.from_dict(sim.memvalue[mid], default_value, m.addrwidth, m.bitwidth)
+        else:
+            nm = sim._mem_varname(m)
+            if nm in sim.mems and isinstance(sim.mems[nm], dict):
+                sim.mems[nm] = SymMem.from_dict(sim.mems[nm], default_value, m.addrwidth, m.bitwidth)
+    return sim
+
+
 class SimResult(object):
     __slots__ = ('pc', 'trace', 'mems', 'exc', 'extra', 'regs_next')
 
